@@ -3,6 +3,7 @@ package exporter
 import (
 	"encoding/json"
 	"errors"
+	"sort"
 	"strconv"
 	"strings"
 
@@ -108,7 +109,13 @@ func (s *OpenAPI3Exporter) GenerateOpenAPI3(app *syslwrapper.App) (*openapi3.T, 
 		operation.Description = v.Description
 		operation.Summary = v.Summary
 		operation.Extensions = v.Extensions
-		for paramName, paramItem := range v.Params {
+		paramNames := make([]string, 0, len(v.Params))
+		for paramName := range v.Params {
+			paramNames = append(paramNames, paramName)
+		}
+		sort.Strings(paramNames)
+		for _, paramName := range paramNames {
+			paramItem := v.Params[paramName]
 			var param *openapi3.Parameter
 			var payload *openapi3.SchemaRef
 			switch paramItem.In {
@@ -136,7 +143,13 @@ func (s *OpenAPI3Exporter) GenerateOpenAPI3(app *syslwrapper.App) (*openapi3.T, 
 		}
 
 		// Map Responses
-		for _, value := range v.Response {
+		responseNames := make([]string, 0, len(v.Response))
+		for responseName := range v.Response {
+			responseNames = append(responseNames, responseName)
+		}
+		sort.Strings(responseNames)
+		for _, responseName := range responseNames {
+			value := v.Response[responseName]
 			response := openapi3.NewResponse()
 			schemaRef := s.exportType(value.Type)
 			response.WithDescription(value.Name)
@@ -199,6 +212,7 @@ func (s *OpenAPI3Exporter) exportType(t *syslwrapper.Type) *openapi3.SchemaRef {
 				required = append(required, k)
 			}
 		}
+		sort.Strings(required)
 		value.Required = required
 	case "ref":
 		ref = SyslRefToJSONSchema(t.Reference)
@@ -213,8 +227,13 @@ type validInputs struct {
 
 func convertEnum(syslEnum map[int64]string) validInputs {
 	enums := validInputs{}
-	for _, str := range syslEnum {
-		enums.Data = append(enums.Data, str)
+	keys := make([]int64, 0, len(syslEnum))
+	for k := range syslEnum {
+		keys = append(keys, k)
+	}
+	sort.Slice(keys, func(i, j int) bool { return keys[i] < keys[j] })
+	for _, k := range keys {
+		enums.Data = append(enums.Data, syslEnum[k])
 	}
 	return enums
 }
